@@ -27,14 +27,13 @@ func (m *consumptions) SendToAll(p Pack, keyframe bool) {
 
 func (m *consumptions) RemoveAndCloseAll() {
 	m.Range(func(key, value interface{}) bool {
-		c := value.(*consumption)
-		m.Delete(key)
-		c.Close()
+		// only the caller that actually removes the entry may count it down
+		if _, ok := m.LoadAndDelete(key); ok {
+			atomic.AddInt32(&m.count, -1)
+			value.(*consumption).Close()
+		}
 		return true
 	})
-
-	verifhook.Point("sweep.zero", 0)
-	atomic.StoreInt32(&m.count, 0)
 }
 
 func (m *consumptions) Add(c *consumption) {
@@ -43,10 +42,9 @@ func (m *consumptions) Add(c *consumption) {
 }
 
 func (m *consumptions) Remove(cid CID) *consumption {
-	ci, ok := m.Load(cid)
+	ci, ok := m.LoadAndDelete(cid)
 	if ok {
 		verifhook.Point("remove.loaded", uint32(cid))
-		m.Delete(cid)
 		atomic.AddInt32(&m.count, -1)
 		return ci.(*consumption)
 	}
